@@ -636,6 +636,47 @@ func sortedKeys[V any](m map[string]V) []string {
 	return ks
 }
 
+// the directory of a (clean) project path inside the repository
+func refDirOf(u *VUniverse, cpath string) string {
+	p := cpath
+	slash := strings.LastIndexByte(p, '/')
+	if at := strings.LastIndexByte(p, '@'); at > slash {
+		p = p[:at]
+	}
+	if p == u.Repo {
+		return ""
+	}
+	return strings.TrimPrefix(p, u.Repo+"/")
+}
+
+// refResolveRef: what a ref query on a project should resolve to — the tag itself when the revision carries a version
+// tag of that project (and major line), otherwise a pseudo-version built on the CLOSEST tagged ancestor, so that the
+// result sorts above every version the revision descends from along the way. Independent of dawn's resolveRefQuery.
+func refResolveRef(u *VUniverse, cpath, ref string) (VMod, int, bool) {
+	rev, ok := u.Refs[ref]
+	if !ok || !strings.HasPrefix(cpath+"/", u.Repo+"/") && cpath != u.Repo && !strings.HasPrefix(cpath, u.Repo+"@") {
+		return VMod{}, 0, false
+	}
+	for n := rev; n >= 1; n-- {
+		node := &u.Nodes[n-1]
+		if u.nodePath(node) != cpath {
+			continue
+		}
+		if n == rev {
+			return VMod{cpath, node.Version}, rev, true
+		}
+		return VMod{cpath, vPseudoVersion(node.Version, rev)}, rev, true
+	}
+	// no tagged ancestor: v0.0.0-… for a path without a major suffix; with a suffix vN dawn bases the pseudo-version on
+	// "vN" itself, i.e. vN.0.1-0.… (an ordering-neutral peculiarity, taken over here)
+	slash := strings.LastIndexByte(cpath, '/')
+	if at := strings.LastIndexByte(cpath, '@'); at > slash {
+		return VMod{cpath, vPseudoVersion(cpath[at+1:]+".0.0", rev)}, rev, true
+	}
+	ts := time.Unix(100*int64(rev), 0).UTC().Format("20060102150405")
+	return VMod{cpath, fmt.Sprintf("v0.0.0-%s-%d", ts, rev)}, rev, true
+}
+
 // ------------------------------------------------------------------------------------------------ canonical text
 
 func encMod(m VMod) string { return m.Path + "#" + m.Version }
@@ -736,7 +777,7 @@ func encUniverse(u *VUniverse, perm uint64, tags []*vcs.Version, extra map[VMod]
 		if semver.Canonical(t.Version.Version) != t.Version.Version {
 			continue // look-alike tags are not versions a requirement can name: not part of the universe
 		}
-		ts = append(ts, encMod(VMod{t.Version.Path, t.Version.Version}))
+		ts = append(ts, encMod(VMod{t.Version.Path, t.Version.Version})+"!"+t.RevisionID)
 	}
 	nodes := "-"
 	if len(ns) > 0 {
@@ -940,38 +981,6 @@ func observeGet(res *Resolver, root map[string]VMod, query string) (VMod, string
 	case <-time.After(vTimeout):
 		return VMod{}, "", false
 	}
-}
-
-// what every branch of the repository resolves to for one project path (the model takes this as a parameter)
-func observeRefs(s *vSession, res *Resolver, qpath string) ([]string, map[VMod]*VNode) {
-	var out []string
-	extra := map[VMod]*VNode{}
-	ctx := context.Background()
-	cpath := project.CleanPath(qpath)
-	_, major := project.SplitPathVersion(cpath)
-	repo, rel, err := res.findProjectRepository(ctx, cpath)
-	for _, ref := range sortedKeys(s.c.U.Refs) {
-		key := cpath + "#" + ref
-		if err != nil {
-			out = append(out, key+"=!")
-			continue
-		}
-		v, qerr := newQuerier(res).resolveRefQuery(ctx, repo, major, versionQuery{path: cpath, query: ref})
-		if qerr != nil {
-			out = append(out, key+"=!")
-			continue
-		}
-		out = append(out, key+"="+encMod(VMod{v.Path, v.Version}))
-		// a pseudo-version is fetched at its revision: tell the model (and the reference) what it requires
-		if rev, perr := module.PseudoVersionRev(v.Version); perr == nil {
-			if n, aerr := strconv.Atoi(rev); aerr == nil {
-				if node := s.c.U.snapshot(n, rel); node != nil {
-					extra[VMod{v.Path, v.Version}] = node
-				}
-			}
-		}
-	}
-	return out, extra
 }
 
 // ------------------------------------------------------------------------------------------------ generator
@@ -1530,21 +1539,42 @@ func runCase(c *VCase) *caseOut {
 	defer s.close()
 	tags, _ := s.repo.Versions(context.Background())
 
-	// ---- parameters of the model that are observed on the code: what refs resolve to
+	// ---- the commit history as the model reads it (ref queries are resolved BY the model), and the pseudo-version
+	// modules the ref queries of this case can resolve to, computed by the harness's own reading of "closest tagged
+	// ancestor" so that the universe knows what they declare
 	var refs []string
 	extraNodes := c.U.pseudoNodes()
+	if c.Prop == "C11" {
+		seenRev := map[int]bool{}
+		for _, ref := range sortedKeys(c.U.Refs) {
+			rev := c.U.Refs[ref]
+			refs = append(refs, "r="+ref+"="+strconv.Itoa(rev))
+			if seenRev[rev] {
+				continue
+			}
+			seenRev[rev] = true
+			var anc []string
+			for a := range (&vRevision{s.repo, rev}).History() {
+				anc = append(anc, a.ID())
+			}
+			r0 := &vRevision{s.repo, rev}
+			refs = append(refs, "h="+r0.ID()+"="+r0.When().UTC().Format("20060102150405")+"="+r0.PseudoID()+"="+strings.Join(anc, "."))
+		}
+	}
 	seenQ := map[string]bool{}
 	for _, op := range c.Ops {
 		if strings.HasPrefix(op, "get:") {
-			qp := queryPathOf(op)
+			qp := refCleanPath(queryPathOf(op))
 			if seenQ[qp] {
 				continue
 			}
 			seenQ[qp] = true
-			rs, ex := observeRefs(s, s.resolver("mem"), qp)
-			refs = append(refs, rs...)
-			for k, v := range ex {
-				extraNodes[k] = v
+			for _, ref := range sortedKeys(c.U.Refs) {
+				if v, rev, ok := refResolveRef(&c.U, qp, ref); ok && module.IsPseudoVersion(v.Version) {
+					if node := c.U.snapshot(rev, refDirOf(&c.U, qp)); node != nil {
+						extraNodes[v] = node
+					}
+				}
 			}
 		}
 	}
@@ -1828,6 +1858,12 @@ func judgeEdit(o *caseOut, c *VCase, s *vSession, g *refGraph, root map[string]V
 			}
 		}
 		ans += "|" + branch + "|" + encMod(resolved) + "|" + landed + "|" + stable
+		if queryKind(op[4:]) == "ref" {
+			if want, _, ok := refResolveRef(&c.U, refCleanPath(queryPathOf(op)), parseVersionQuery(op[4:]).query); ok && want != resolved {
+				o.violation(c, "get-ref-resolution", fmt.Sprintf("%s resolved %s; the revision it names is %s (its own tag, or a pseudo-version on the closest tagged ancestor)",
+					op, encMod(resolved), encMod(want)), step, "")
+			}
+		}
 		// whatever the query kind, the version it resolves to is a version of the project that was asked for
 		if want := refCleanPath(queryPathOf(op)); resolved.Path != want {
 			o.violation(c, "get-resolved-other-project", fmt.Sprintf("%s on %s resolved %s, a version of another project than %s",
@@ -2353,6 +2389,14 @@ func directedCases(prop string) []*VCase {
 		out = append(out, &VCase{Prop: prop, Cache: "cold", U: v01, Root: map[string]VMod{"p": {P("p"), "v0.8.0"}}, Ops: []string{"upall", "upall"}})
 		out = append(out, &VCase{Prop: prop, Cache: "cold", U: v01, Root: map[string]VMod{"p": {P("p"), "v1.0.0"}, "b": {P("b"), "v1.2.0"}},
 			Ops: []string{"get:" + P("b") + "@v1.1.0", "bl"}})
+		// D33: a branch ahead of the newest tag, and a branch AT a tagged commit, with an older tag further back: the ref
+		// resolves on the closest tagged ancestor (v1.4.1-0.…, resp. the tag v1.4.0 itself), so `get p@main` is an upgrade
+		// resp. a no-op — not a downgrade to a pseudo-version based on v1.0.0
+		refU := VUniverse{Repo: repo, DefaultRef: "main", Refs: map[string]int{"main": 4, "rel": 2},
+			Nodes: []VNode{{Base: "p", Version: "v1.0.0"}, {Base: "p", Version: "v1.4.0"}, {Base: "q", Version: "v1.0.0", Reqs: []VMod{{P("p"), "v1.4.0"}}},
+				{Base: "q", Version: "v1.1.0", Reqs: []VMod{{P("p"), "v1.4.0"}}}}}
+		out = append(out, &VCase{Prop: prop, Cache: "cold", U: refU, Root: map[string]VMod{"p": {P("p"), "v1.4.0"}, "q": {P("q"), "v1.0.0"}},
+			Ops: []string{"get:" + P("p") + "@main", "get:" + P("p") + "@rel", "get:" + P("q") + "@main"}})
 		// new names: the natural name is taken twice
 		out = append(out, &VCase{Prop: prop, Cache: "disk", U: VUniverse{Repo: repo, DefaultRef: "main", Refs: map[string]int{"main": 3},
 			Nodes: []VNode{{Base: "a", Version: "v1.0.0"}, {Base: "b", Version: "v1.0.0", Name: "lib"}, {Base: "c", Version: "v2.0.0", Name: "lib"}}},
